@@ -240,9 +240,65 @@ var c18Others = []string{
 	"language o3(cc);\nnamespace = \"o3\"\nflexMode = true\n:: lexer\n'a': /a/\n'b': /b/\n:: parser\n%input S;\nS: 'a' 'b' ;\n",
 	"language o4(cc);\nnamespace = \"o4\"\n:: lexer\n'a': /a/\n'b': /b/\n:: parser\n%input S;\nS: 'a' 'b' ;\n",
 	"language o5(ts);\n:: lexer\n'a': /a/\n:: parser\n%input S;\nS: 'a' ;\n",
+	// a mid-rule action behind two symbols in a rule that expands into several productions
+	"language o6(go);\npackage = \"x/o6\"\n:: lexer\n'a': /a/\n'b': /b/\n'c': /c/\n'd': /d/\n:: parser\n%input S;\nS: 'a' 'b' { println(\"mid\") } 'c'? 'd' | 'b' 'a' 'b' { println(\"mid\") } 'c'? 'd'? 'a' ;\n",
+	// the same unicode class with and without case folding
+	"language o7(go);\npackage = \"x/o7\"\n:: lexer\nup: /\\p{Lu}+/\nlo: /\\p{Ll}[0-9]/\n:: parser\n%input S;\nS: up lo ;\n",
+	"language o8(go);\npackage = \"x/o8\"\ncaseInsensitive = true\n:: lexer\nup: /\\p{Lu}+/\nnum: /[0-9]\\p{Ll}/\n:: parser\n%input S;\nS: up num ;\n",
+	// compiles, but rendering the parser fails (unknown reference in an action)
+	"language o9(go);\npackage = \"x/o9\"\n:: lexer\n'a': /a/\n:: parser\n%input S;\nS: 'a' { println($nosuch) } ;\n",
+}
+
+var c18History struct {
+	done bool
+	fail *Failure
+}
+
+// c18HistoryCheck generates the fixed grammars of c18Others four times round robin (once per
+// process): every grammar has to come out the same each time, whatever was generated — or
+// failed to generate — in between.
+func c18HistoryCheck() *Failure {
+	if c18History.done {
+		return c18History.fail
+	}
+	c18History.done = true
+	first := map[int]string{}
+	firstFiles := map[int]map[string]string{}
+	for round := 0; round < 4; round++ {
+		for i, o := range c18Others {
+			h, files, err := c18Generate(fmt.Sprintf("o%d.tm", i+1), o)
+			if err != nil {
+				h = "error: " + firstWords(err.Error(), 8)
+			}
+			if round == 0 {
+				first[i], firstFiles[i] = h, files
+			} else if h != first[i] {
+				c18History.fail = failf("history-grammar-differs", "fixed grammar %d of the generation history came out differently in round %d (%s vs %s): %s\ngrammar:\n%s", i+1, round+1, first[i][:min(12, len(first[i]))], h[:min(12, len(h))], c18FirstDiff(firstFiles[i], files), o)
+				return c18History.fail
+			}
+		}
+	}
+	// ... and the same as in a process that has generated nothing else
+	for i, o := range c18Others {
+		if strings.HasPrefix(first[i], "error: ") {
+			continue
+		}
+		name := fmt.Sprintf("o%d.tm", i+1)
+		if fresh, out := c18FreshHash(name, o); fresh == "" {
+			c18History.fail = failf("worker-failed", "a fresh process could not generate fixed grammar %d which this process generated: %s", i+1, out)
+			return c18History.fail
+		} else if fresh != first[i] {
+			c18History.fail = failf("history-grammar-differs-across-processes", "fixed grammar %d of the generation history: a fresh process produces sha256 %s, this process (after the other history grammars) %s\ngrammar:\n%s", i+1, fresh[:12], first[i][:12], o)
+			return c18History.fail
+		}
+	}
+	return nil
 }
 
 func c18Check(c c18Case, r *ev.Recorder) *Failure {
+	if f := c18HistoryCheck(); f != nil {
+		return f
+	}
 	name, text, err := c.source()
 	if err != nil {
 		return nil
@@ -343,7 +399,7 @@ func TestC18(t *testing.T) {
 	}
 	p := &prop[c18Case]{
 		ID:   "C18",
-		Rule: "C30/C17's grammar+option generator (sets, lookaheads, lalr(k), mid-rule actions, precedence, event fields/AST, Bison export) plus 0..12 keywords specialised from a (class) lexer rule (keyword hash switch), and 1 in 60 cases one of the five shipped grammars; 3 in 10 cases the grammar is rendered for the cc (typed nonterminals, variantStackEntry, 1 in 4 flexMode) or ts target; 1 in 4 cases are marker-dense (one state marker in two thirds of the alternatives, twin alternatives differing in the first terminal, minimizeDFA on). Per case: two consecutive in-process generations, then a third after generating five unrelated grammars (go, cc with and without flexMode, ts), must be byte-identical (all files); every cc/ts case is also regenerated by one fresh process (no history); for shipped grammars the regenerated files must equal the committed ones; for 1 in 6 cases (1 in 4 shipped) fresh processes with GOMAXPROCS in {1,2,16} (thorough: 10 processes) regenerate the grammar and must produce the same sha256 (Go randomises map iteration per map, so every generation is a new sample of every map order). Non-trivial: grammar text with >=2 map-backed/ordering-sensitive features; distinct by grammar text.",
+		Rule: "C30/C17's grammar+option generator (sets, lookaheads, lalr(k), mid-rule actions, precedence, event fields/AST, Bison export) plus 0..12 keywords specialised from a (class) lexer rule (keyword hash switch), and 1 in 60 cases one of the five shipped grammars; 3 in 10 cases the grammar is rendered for the cc (typed nonterminals, variantStackEntry, 1 in 4 flexMode) or ts target; 1 in 4 cases are marker-dense (one state marker in two thirds of the alternatives, twin alternatives differing in the first terminal, minimizeDFA on). Per case: two consecutive in-process generations, then a third after generating nine unrelated grammars, must be byte-identical (all files); the nine fixed history grammars themselves (go/cc/ts, flexMode, a mid-rule action in a rule with several expansions, \\p{Lu} with and without caseInsensitive, one whose parser template fails to render) are generated four times round robin once per process and must come out the same each time and the same as in a fresh process that generates nothing else; every cc/ts case is also regenerated by one fresh process (no history); for shipped grammars the regenerated files must equal the committed ones; for 1 in 6 cases (1 in 4 shipped) fresh processes with GOMAXPROCS in {1,2,16} (thorough: 10 processes) regenerate the grammar and must produce the same sha256 (Go randomises map iteration per map, so every generation is a new sample of every map order). Non-trivial: grammar text with >=2 map-backed/ordering-sensitive features; distinct by grammar text.",
 		Assume: []string{"a map-order dependency whose variants are very unlikely can need more repetitions than any budget; repetition counts are reported"},
 		Quick: 400, Thorough: 6000,
 		Gen:   c18Gen,
